@@ -1,6 +1,6 @@
 (* C02 - the algebra the documentation promises, for ALL expressions and
    environments (theorems about Cond/Sem.v). *)
-From Coq Require Import List ZArith Bool Lia.
+From Coq Require Import List ZArith Bool Lia Permutation.
 From YV Require Import Cond.Syntax Cond.Sem Cond.Rename.
 Import ListNotations.
 Local Open Scope Z_scope.
@@ -452,23 +452,66 @@ Proof.
     + cbn [orb]. apply IH; auto.
 Qed.
 
-(* `N of (<boolean>, ..)`: the implementation evaluates the items in order and
-   an undefined item ends the whole statement as undefined (emit_of_expr_tuple
-   computes the item outside the per-iteration handler), which the model
-   follows ([strict] in Sem.quantified).  Consequence, on the faithful model:
-   the result depends on the ORDER of the items - `1 of (true, X)` is true and
-   `1 of (X, true)` is undefined (so the rule does not match) when X is
-   undefined.  The documentation (differences.md: "of" accepts tuples of
-   boolean expressions; conditions.md: at least N of the items) does not say
-   what an undefined item does; harness/src/bin/c02.rs replays this pair on
-   the implementation on every run (known finding
-   C02:of-tuple-result-depends-on-item-order). *)
-Lemma of_tuple_order_refuted :
-  exists en a b,
-    eval en (EOfB QExpr (EInt 1) (ECons a (ECons b ENil))) = VBool true /\
-    eval en (EOfB QExpr (EInt 1) (ECons b (ECons a ENil))) = VUndef.
+(* ---- `Q of (<boolean>, ..)`: the order of the items does not matter (since
+   commit 99b031b0 an undefined item only counts as false; before, it ended the
+   statement when it was reached, so `1 of (true, X)` was true and
+   `1 of (X, true)` undefined for an undefined X) *)
+Lemma existsb_perm : forall (A : Type) (f : A -> bool) l l', Permutation l l' -> existsb f l = existsb f l'.
 Proof.
-  exists (mkEnv [97; 98; 99] 3 (fun _ => []) [] None (fun _ => false) (fun _ => VUndef)),
-         (EBool true), (ECmp Eq (ERead (IK 1 false false) (EInt 99)) (EInt 1)).
-  vm_compute. split; reflexivity.
+  intros A f l l' P. induction P; cbn [existsb]; try congruence.
+  destruct (f x), (f y); reflexivity.
 Qed.
+Lemma forallb_perm : forall (A : Type) (f : A -> bool) l l', Permutation l l' -> forallb f l = forallb f l'.
+Proof.
+  intros A f l l' P. induction P; cbn [forallb]; try congruence.
+  destruct (f x), (f y); reflexivity.
+Qed.
+Lemma count_true_perm : forall l l', Permutation l l' -> count_true l = count_true l'.
+Proof.
+  intros l l' P. unfold count_true. f_equal. induction P; cbn [filter]; try congruence.
+  - destruct (truthy x); cbn [length]; congruence.
+  - destruct (truthy x), (truthy y); reflexivity.
+Qed.
+
+Theorem quantified_perm : forall qk qv items items',
+  Permutation items items' -> quantified qk qv false items = quantified qk qv false items'.
+Proof.
+  intros qk qv items items' P. unfold quantified.
+  rewrite (Permutation_length P).
+  destruct (max_count qk qv (Z.of_nat (length items'))) as [m|]; [|reflexivity].
+  destruct qk.
+  - rewrite !loop_none, (existsb_perm _ truthy _ _ P). reflexivity.
+  - rewrite !loop_any, (existsb_perm _ truthy _ _ P). reflexivity.
+  - rewrite !loop_all, (forallb_perm _ truthy _ _ P). reflexivity.
+  - destruct (Z.compare_spec m 0) as [-> | Hn | Hp].
+    + rewrite !loop_expr_zero by auto. rewrite (existsb_perm _ truthy _ _ P). reflexivity.
+    + rewrite !(loop_expr_neg QExpr m _ 0) by (auto; lia). rewrite (existsb_perm _ truthy _ _ P). reflexivity.
+    + rewrite !(loop_expr_pos QExpr m _ 0) by (auto; lia). rewrite (count_true_perm _ _ P). reflexivity.
+  - destruct (Z.compare_spec m 0) as [-> | Hn | Hp].
+    + rewrite !loop_expr_zero by auto. rewrite (existsb_perm _ truthy _ _ P). reflexivity.
+    + rewrite !(loop_expr_neg QPct m _ 0) by (auto; lia). rewrite (existsb_perm _ truthy _ _ P). reflexivity.
+    + rewrite !(loop_expr_pos QPct m _ 0) by (auto; lia). rewrite (count_true_perm _ _ P). reflexivity.
+Qed.
+
+Fixpoint exprs_list (es : exprs) : list expr :=
+  match es with ENil => [] | ECons e t => e :: exprs_list t end.
+Lemma eval_list_map : forall en es, eval_list en es = map (eval en) (exprs_list es).
+Proof. intros en es. induction es as [|e t IH]; [reflexivity|]. cbn [eval_list exprs_list map]. rewrite IH. reflexivity. Qed.
+
+(* for every quantifier (none, any, all, <expr>, <expr>%), every tuple and
+   every permutation of its items *)
+Theorem of_tuple_order_independent : forall en qk q es es',
+  Permutation (exprs_list es) (exprs_list es') ->
+  eval en (EOfB qk q es) = eval en (EOfB qk q es').
+Proof.
+  intros en qk q es es' P. cbn [eval]. rewrite !eval_list_map.
+  apply quantified_perm. apply Permutation_map. exact P.
+Qed.
+(* the hypothesis is satisfiable, and the former witness of the order dependence *)
+Example of_tuple_order_example :
+  let en := mkEnv [97; 98; 99] 3 (fun _ => []) [] None (fun _ => false) (fun _ => VUndef) in
+  let x := ECmp Eq (ERead (IK 1 false false) (EInt 99)) (EInt 1) in
+  Permutation (exprs_list (ECons (EBool true) (ECons x ENil))) (exprs_list (ECons x (ECons (EBool true) ENil))) /\
+  eval en (EOfB QExpr (EInt 1) (ECons (EBool true) (ECons x ENil))) = VBool true /\
+  eval en (EOfB QExpr (EInt 1) (ECons x (ECons (EBool true) ENil))) = VBool true.
+Proof. split; [apply perm_swap | vm_compute; split; reflexivity]. Qed.
